@@ -1,4 +1,6 @@
 import Flurry.Seq.Model
+import Flurry.Gen.Serde
+import Flurry.Spec.Bulk
 /-! # Line-protocol driver for the sequential model (`lean_exe flurry-model`)
 
 One request per line on stdin, one answer per line on stdout. Unknown or malformed lines are
@@ -171,6 +173,18 @@ def step (st : St) (line : String) : St × String :=
     | some p, some pa => withCur st fun m =>
         let (m, o) := runRetain force p pa m; (setCur st m, fmtOut o)
     | _, _ => (st, "bad-op")
+  | ["deser", kind, doc] =>
+    -- C19: the visitor loop of the serde impls on a document given as k:v pairs
+    match parsePairs (if doc == "-" then "" else doc) with
+    | some ps =>
+      let pol := if kind == "set" then Flurry.Gen.setDupPolicy else Flurry.Gen.mapDupPolicy
+      match Flurry.C19.deserialize pol ps with
+      | .ok m =>
+        let sorted := (m.toArray.qsort (fun a b => a.1 < b.1)).toList
+        (st, "ok " ++ ",".intercalate (sorted.map fun (k, v) => s!"{k}:{v}"))
+      | .err => (st, "err")
+      | .panic => (st, "panic")
+    | none => (st, "bad-op")
   | ["clear"] => withCur st fun m => (setCur st (clear m), "ok")
   | ["reserve", n] =>
     match n.toNat? with
